@@ -161,6 +161,9 @@ def run(run, tier, replay=None):
             if "[assignment]" in e and "/models/" in e and src.startswith(e.split("/models/")[1].split(".py")[0][:0] or "") and " = str(self." in src and 'variable has type "Unset | bytes"' in e:
                 if run.known_finding("mypy_uuid_multipart", f"tree '{m['label']}': {e[:200]} | {src}"):
                     continue
+            if "[arg-type]" in e and src.startswith("if isinstance(self.") and src.endswith(", None):"):
+                if run.known_finding("multipart_none_member_first", f"tree '{m['label']}': {e[:200]} | {src}"):
+                    continue
             modfile = e.split(":")[0]
             if "/models/" in modfile and modfile.split("/models/")[1][:-3] in (m.get("overlap_modules") or []):
                 if run.known_finding("mypy_union_overlap", f"tree '{m['label']}': {e[:200]} | {src}"):
